@@ -27,7 +27,8 @@ from gen_lean import register, write_if_changed, src
 
 FILES = [t for t in gen_locks.TARGETS if "local_dynamic_map" in t]
 SKELETONS = [
-    ("LDMService", "attend_subscriptions"), ("LDMService", "process_notifications"), ("LDMService", "delete_subscription"),
+    ("LDMService", "attend_subscriptions"), ("LDMService", "attend_subscription"), ("LDMService", "process_notifications"),
+    ("LDMService", "delete_subscription"),
     ("LDMService", "del_data_consumer_its_aid"), ("LDMService", "remove_subscription"),
     ("LDMMaintenance", "update_provider_data"), ("LDMMaintenance", "collect_trash"),
     ("LDMMaintenance", "check_and_delete_time_validity"),
